@@ -749,12 +749,14 @@ fn main() {
     let violations: Arc<Mutex<Vec<Value>>> = Arc::new(Mutex::new(Vec::new()));
     let classes: Arc<Mutex<BTreeMap<String, u64>>> = Arc::new(Mutex::new(BTreeMap::new()));
     let constraint_hits: Arc<Mutex<BTreeMap<String, u64>>> = Arc::new(Mutex::new(BTreeMap::new()));
+    let feature_hits: Arc<Mutex<BTreeMap<String, u64>>> = Arc::new(Mutex::new(BTreeMap::new()));
     let samples: Arc<Mutex<Vec<Value>>> = Arc::new(Mutex::new(Vec::new()));
     let bases: Arc<Mutex<Vec<(String, String)>>> = Arc::new(Mutex::new(Vec::new()));
 
     let mut handles = Vec::new();
     for t in 0..threads {
         let n_nontrivial = n_nontrivial.clone();
+        let feature_hits = feature_hits.clone();
         let (ctx, rx, n_files, n_valid, n_runs, n_msgs, n_dev, violations, classes, constraint_hits, samples, bases, dump_dir) = (
             ctx.clone(), rx.clone(), n_files.clone(), n_valid.clone(), n_runs.clone(), n_msgs.clone(), n_dev.clone(),
             violations.clone(), classes.clone(), constraint_hits.clone(), samples.clone(), bases.clone(), dump_dir.clone());
@@ -775,6 +777,34 @@ fn main() {
                     for c in rec["violations"].as_array().map(|a| a.as_slice()).unwrap_or(&[]) {
                         *ch.entry(c.as_str().unwrap_or("?").to_string()).or_insert(0) += 1;
                     }
+                }
+                {
+                    // which editing actions of the spec does this file witness (vacuity guard for the generator)
+                    let f = &rec["file"];
+                    let any_on = |v: &Value, keys: &[&str]| keys.iter().any(|k| on(v, k));
+                    let mut feats: Vec<&str> = Vec::new();
+                    if any_on(&f["g"], &["buffer_size", "activate", "front_timeout", "metrics_off"]) { feats.push("SetGlobal"); }
+                    for l in f["ls"].as_array().map(|a| a.as_slice()).unwrap_or(&[]) {
+                        feats.push("AddListener");
+                        if any_on(l, &["expect_proxy", "public", "alpn", "cert", "hsts", "front_timeout"]) { feats.push("EditListener"); }
+                    }
+                    for c in f["cs"].as_array().map(|a| a.as_slice()).unwrap_or(&[]) {
+                        feats.push("AddCluster");
+                        if any_on(c, &["lb", "https_redirect", "send_proxy"]) { feats.push("EditCluster"); }
+                        let base_host = if s(c, "proto") == "http" { "h1" } else { "none" };
+                        for fr in c["fronts"].as_array().map(|a| a.as_slice()).unwrap_or(&[]) {
+                            feats.push("NewFrontend");
+                            if any_on(fr, &["path", "ptype", "cert", "hsts"]) { feats.push("EditFrontend"); }
+                            if s(fr, "host") != base_host { feats.push("EditFrontendHost"); }
+                        }
+                        for b in c["backs"].as_array().map(|a| a.as_slice()).unwrap_or(&[]) {
+                            feats.push("NewBackend");
+                            if any_on(b, &["weight", "backup", "bid"]) { feats.push("EditBackend"); }
+                        }
+                    }
+                    feats.sort(); feats.dedup();
+                    let mut fh = feature_hits.lock().unwrap();
+                    for x in feats { *fh.entry(x.to_string()).or_insert(0) += 1; }
                 }
                 if valid && rec["file"]["cs"].as_array().map(|a| a.len()) == Some(1)
                     && rec["file"]["cs"][0]["fronts"].as_array().is_some_and(|a| !a.is_empty())
@@ -914,5 +944,5 @@ fn main() {
     emit(&json!({"kind":"summary","files": n_files.load(Ordering::SeqCst), "valid_files": n_valid.load(Ordering::SeqCst), "nonempty_files": n_nontrivial.load(Ordering::SeqCst),
         "runs": n_runs.load(Ordering::SeqCst), "messages_dispatched": n_msgs.load(Ordering::SeqCst),
         "deviation_explained": n_dev.load(Ordering::SeqCst), "scale_runs": scale_runs, "scale_max_messages": scale_max_msgs,
-        "classes": *classes.lock().unwrap(), "constraint_hits": *constraint_hits.lock().unwrap(), "samples": all_samples}));
+        "classes": *classes.lock().unwrap(), "constraint_hits": *constraint_hits.lock().unwrap(), "action_hits": *feature_hits.lock().unwrap(), "samples": all_samples}));
 }
